@@ -2,11 +2,12 @@
   C05 — client: a subscription stream yields exactly its own notifications, in order.
 
   Channels (`Chan`) carry ghost logs: `sent` = every payload the read task handed to the channel's
-  sender (i.e. of a notification routed to it), `accepted` = those `try_send` took, `yielded` = those
-  `next` returned; `gapped` = something was accepted after an earlier payload had been refused.
+  sender (i.e. of a notification routed to it), `accepted` = those `send` took, `yielded` = those
+  `next` returned; `gapped` = something was accepted after an earlier payload had been refused
+  (impossible since /repo f2384ab: a lagged sender refuses everything — `c05_no_gap`).
   `Reachable st` = reached from a fresh client by **any** finite sequence of atomic steps.
 -/
-import JrpcVerif.Proofs.ClientLiveLemmas
+import JrpcVerif.Proofs.ClientSlotLemmas
 namespace Jrpc.Client
 open Jrpc
 
@@ -16,12 +17,15 @@ open Jrpc
 def c05_prefix_statement : Prop :=
   ∀ st, Reachable st → ∀ ch ∈ st.core.chans, ch.yielded <+: ch.sent
 
-/-- proved part: for every channel into which nothing was accepted after a refusal
-(`gapped = false`, decidable on the state) -/
-theorem c05_prefix_partial (st : St) (hr : Reachable st) (ch : Chan) (hc : ch ∈ st.core.chans)
-    (hg : ch.gapped = false) : ch.yielded <+: ch.sent := by
+/-- … and it holds, for every channel of every reachable state (F-14 fixed) -/
+theorem c05_prefix : c05_prefix_statement := by
+  intro st hr ch hc
   have h := (sinv_reachable st hr).chans ch hc
-  exact List.IsPrefix.trans h.yieldedPrefix (h.prefixUnlessGap hg)
+  exact List.IsPrefix.trans h.yieldedPrefix h.prefixSent
+
+/-- nothing is ever accepted behind a refused payload -/
+theorem c05_no_gap (st : St) (hr : Reachable st) (ch : Chan) (hc : ch ∈ st.core.chans) : ch.gapped = false :=
+  ((sinv_reachable st hr).chans ch hc).noGap
 
 /-- order and completeness inside the client: FIFO, nothing accepted is lost or reordered, and as
 long as the consumer keeps up (`lagged = false`) everything sent is accepted -/
@@ -153,7 +157,7 @@ theorem c05_next_ends (st : St) (c : ChanId) (l : Bool) :
 
 theorem c05_unsub_once (st : St) (hr : Reachable st) (ch : Chan) (hc : ch ∈ st.core.chans) :
     ch.unsubWires ≤ 1 ∧ (ch.unsubWires = 1 → ch.unsubscribed = true) :=
-  (slive_reachable st hr).wires ch hc
+  ⟨((slive_reachable st hr).wires ch hc).le, ((slive_reachable st hr).wires ch hc).one⟩
 
 /-- when the send task processes `SubscriptionClosed(s)` — queued by an explicit unsubscribe, by a
 drop that found room, or by the read task after lag / closed receiver — while `s` is still active,
@@ -167,28 +171,25 @@ theorem c05_unsub_sent (st : St) (hr : Reachable st) (s : SubId) (rid : Id)
       (handleFront (handleFront st.core (.subscriptionClosed s)).1 (.subscriptionClosed s)).2 = [] := by
   obtain ⟨uid, c, um, h1, _⟩ := (sinv_reachable st hr).routes.subs s rid hs
   refine ⟨uid, c, um, h1, ?_⟩
-  have hu : st.core.mgr.unsubscribe rid s =
-      some ({ st.core.mgr with requests := areplace rid (.pendingCall none) st.core.mgr.requests,
-                               subs := aerase s st.core.mgr.subs }, uid, c, um) := by
-    unfold Mgr.unsubscribe; simp [h1, hs]
+  have hu : st.core.mgr.unsubscribe rid s = some (unsubMgr st.core.mgr rid uid s c, uid, c, um) := by
+    unfold Mgr.unsubscribe unsubMgr; simp [h1, hs]
   have hb : buildUnsubscribeMessage st.core rid s =
-      some (({ st.core with mgr := { st.core.mgr with requests := areplace rid (.pendingCall none) st.core.mgr.requests,
-                                                       subs := aerase s st.core.mgr.subs } }).modChan c
+      some (({ st.core with mgr := unsubMgr st.core.mgr rid uid s c }).modChan c
               (fun ch => { dropSender ch with unsubscribed := true }), .request uid none (unsubRaw uid um s)) := by
     unfold buildUnsubscribeMessage; rw [hu]
   have ha : st.core.mgr.asSubscription rid = some c := by unfold Mgr.asSubscription; rw [h1]
   have hf : handleFront st.core (.subscriptionClosed s) =
-      ((({ st.core with mgr := { st.core.mgr with requests := areplace rid (.pendingCall none) st.core.mgr.requests,
-                                                   subs := aerase s st.core.mgr.subs } }).modChan c
+      ((({ st.core with mgr := unsubMgr st.core.mgr rid uid s c }).modChan c
               (fun ch => { dropSender ch with unsubscribed := true })).modChan c
               (fun ch => { ch with unsubWires := ch.unsubWires + 1 }), [.wire (unsubRaw uid um s)]) := by
     unfold handleFront
     simp only [Mgr.getRequestIdBySubscriptionId, hs, ha, hb]
   rw [hf]
+  have hsubs : (unsubMgr st.core.mgr rid uid s c).subs = aerase s st.core.mgr.subs := (unsubMgr_others _ _ _ _ _).1
   refine ⟨rfl, ?_, ?_⟩
-  · simp only [modChan_mgr]; exact alookup_aerase_self s _
+  · simp only [modChan_mgr, hsubs]; exact alookup_aerase_self s _
   · unfold handleFront
-    simp only [Mgr.getRequestIdBySubscriptionId, modChan_mgr, alookup_aerase_self]
+    simp only [Mgr.getRequestIdBySubscriptionId, modChan_mgr, hsubs, alookup_aerase_self]
 
 /-! ### witnesses -/
 
@@ -210,28 +211,13 @@ def gapSteps : List Step :=
   [ .newSubscribe [115, 117, 98] [117, 110, 115, 117, 98], .sendTask 0,
     .recv tAccept, .recv tPush1, .recv tPush2, .next 0, .recv tPush3, .next 0 ]
 
-theorem gap_witness : ((run (St.init 1 false) gapSteps).1.core.chans.map (fun ch => (ch.yielded, ch.sent, ch.gapped, ch.lagged))) =
-    [([[49], [51]], [[49], [50], [51]], true, true)] := by decide
+/-- the pre-fix gap history on the fixed code: 3 is refused, the stream yields 1 and then ends as lagged -/
+theorem gap_history_now : ((run (St.init 1 false) gapSteps).1.core.chans.map (fun ch => (ch.yielded, ch.sent, ch.gapped, ch.lagged, ch.buf))) =
+    [([[49]], [[49], [50], [51]], false, true, [])] := by decide
 
-/-- the full statement is false of the code as it is: the stream yields 1, 3 -/
-theorem c05_prefix_statement_false : ¬ c05_prefix_statement := by
-  intro h
-  have hr : Reachable (run (St.init 1 false) gapSteps).1 := ⟨1, false, gapSteps, rfl⟩
-  have hw := gap_witness
-  cases hc : (run (St.init 1 false) gapSteps).1.core.chans with
-  | nil => rw [hc] at hw; simp at hw
-  | cons ch rest =>
-    rw [hc] at hw
-    simp only [List.map_cons, List.cons.injEq, Prod.mk.injEq] at hw
-    obtain ⟨⟨hy, hs, _⟩, _⟩ := hw
-    have := h _ hr ch (by rw [hc]; exact List.mem_cons_self)
-    rw [hy, hs] at this
-    revert this
-    decide
-
--- non-vacuity of the partial theorem: the same history without the late push has no gap and yields a prefix
-example : ((run (St.init 1 false) (gapSteps.take 6)).1.core.chans.map (fun ch => (ch.yielded, ch.sent, ch.gapped))) =
-    [([[49]], [[49], [50]], false)] := by decide
+-- non-vacuity: the stream really yields (a run that reads everything it is sent while it keeps up)
+example : ((run (St.init 2 false) [.newSubscribe [115, 117, 98] [117, 110, 115, 117, 98], .sendTask 0, .recv tAccept, .recv tPush1,
+      .recv tPush2, .next 0, .next 0]).1.core.chans.map (fun ch => (ch.yielded, ch.sent))) = [([[49], [50]], [[49], [50]])] := by decide
 
 -- F-8 (fixed): a close notification inside an array ends the stream exactly like the single message
 example :
